@@ -174,6 +174,17 @@ CHECKS = {
          "inside one syscall are out of reach. Crash points are not injected here. Seven genuine defects were found and repaired "
          "(see known_findings.json, fixed records).",
          "3 (C15)", "own scheduler (checks/c15_share.py)"),
+ "C13": ("exploration",
+         "Hypothesis (project, variable definitions over a hostile alphabet at every definition site with generated quoting style, declared/weak/undeclared per step, host environment with canaries, whitelist options, tools, sandbox mode) generation; oracle = independent model of the documented environment rules compared byte for byte with dumps written by the step scripts; sandbox probes for visibility and writability",
+         "Step and fingerprint scripts dump exported variables, positional arguments and argument ids with bash builtins; observed names "
+         "must equal declared-and-set + whitelisted host variables + documented Bob variables, values byte-exact, arguments in declared "
+         "order, tools first on PATH and libs on LD_LIBRARY_PATH, canaries never leak without -E; inside the real namespace sandbox only "
+         "declared dependencies are visible (read-only) and only the own workspace and a fresh /tmp are writable.",
+         "Trusted: the environment model in checks/c13_env.py (written from the manual) and vlib/strlang.py for rendering values in the "
+         "substitution language. NUL cannot occur in a process environment; names are limited to [A-Za-z_][A-Za-z0-9_]*; multiPackage, "
+         "aliases and weak tools are not generated here; image-sandbox cases run no fingerprint script. The sandbox part needs "
+         "unprivileged user namespaces (available in this sandbox; otherwise labelled skipped_no_userns, never a violation).",
+         "3 (C13)", "E1 bobproc, E8 strlang"),
 }
 
 NOT_YET = {}
